@@ -114,6 +114,12 @@ class Index(PyModel):
     def copy(self):
         return Index(self.tuples, self.names, self.default, self.multi)
 
+    def __iter__(self):
+        return iter([t if self.multi else t[0] for t in self.tuples])
+
+    def tolist(self):
+        return list(iter(self))
+
     def get_indexer(self, target, **k):
         """position of each target label, -1 where the label is not in the index"""
         if self.multi:
@@ -411,6 +417,33 @@ class Frame(PyModel):
 
     def copy(self, deep=True):
         return Frame(self._cols.labels, self.rows, self.index.copy(), self._cols.name)
+
+    def drop(self, labels=None, axis=0, index=None, columns=None, inplace=False, errors="raise", **k):
+        """label based: EVERY row / column carrying one of the labels goes"""
+        if labels is not None:
+            if axis in (1, "columns"):
+                columns = labels
+            else:
+                index = labels
+        new = self.copy()
+        if columns is not None:
+            cols = list(columns.labels) if isinstance(columns, Columns) else list(columns) if isinstance(columns, (list, tuple, ObjVec)) else [columns]
+            for c in cols:
+                if not any(cell_eq(c, l) for l in new._cols.labels):
+                    if errors == "raise":
+                        raise PyRaise("KeyError", None, f"{c!r} not found in axis")
+            keep = [i for i, l in enumerate(new._cols.labels) if not any(cell_eq(c, l) for c in cols)]
+            new = Frame([new._cols.labels[i] for i in keep], [[r[i] for i in keep] for r in new.rows], new.index.copy(), new._cols.name)
+        if index is not None:
+            labs = list(iter(index)) if isinstance(index, Index) else list(index.cells) if isinstance(index, (Series, ObjVec)) else list(index) if isinstance(index, (list, tuple)) else [index]
+            def lab(t):
+                return t if new.index.multi else t[0]
+            for l in labs:
+                if errors == "raise" and not any(cell_eq(lab(t), l) for t in new.index.tuples):
+                    raise PyRaise("KeyError", None, f"{l!r} not found in axis")
+            keep = [i for i, t in enumerate(new.index.tuples) if not any(cell_eq(lab(t), l) for l in labs)]
+            new = Frame(new._cols.labels, [new.rows[i] for i in keep], Index([new.index.tuples[i] for i in keep], new.index.names, False, new.index.multi), new._cols.name)
+        return self._result(new, inplace)
 
     def _ci(self, label):
         hits = [i for i, l in enumerate(self._cols.labels) if cell_eq(l, label)]
